@@ -13,7 +13,8 @@ RULE = (
     "(finite floats, |x| in {0} U [1e-30,1e30], values next to the affine offsets). Oracles: u->u returns the "
     "object itself; u->v->u and tobase/frombase round trips within 1e-12*S; u->w == u->v->w within 1e-12*S; "
     "order never swapped, strictly kept for clearly separated values; slope>0; the exponent-list form "
-    "[(u,e)]->[(v,e)] (e = 2, 3, -2, scale-only units, negative values included) round-trips, keeps the sign and the order. Non-trivial = u!=v, at least one "
+    "[(u,e)]->[(v,e)] (e = 2, 3, -2, scale-only units, negative values included) round-trips, keeps the sign and the order; Quantity.ConvertScalarValue(u->v) equals the database's number for every "
+    "pair, also right after an Unknown-quantity lookup of the same target. Non-trivial = u!=v, at least one "
     "side has a conversion, x!=0; distinct key = (config, quantity type, u, v[, w])."
 )
 ASSUMPTIONS = [
@@ -53,6 +54,26 @@ class Sweep:
         self.db = db
         self.um = UnitModel(db)
         self.bad_units = set()
+        self.unknown = None
+        self._q = {}
+        try:
+            from barril.units import ObtainQuantity
+
+            if "Unknown" in db.quantity_types and db.IsValidCategory("Unknown"):
+                self.unknown = ObtainQuantity("<unknown>", "Unknown")
+        except Exception:
+            self.unknown = None
+
+    def quantity_of(self, u):
+        from barril.units import ObtainQuantity
+        from barril.units.unit_database import UnitsError
+
+        if u not in self._q:
+            try:
+                self._q[u] = ObtainQuantity(u)
+            except (UnitsError, AssertionError):
+                self._q[u] = None  # database without categories
+        return self._q[u]
 
     # -- per unit ---------------------------------------------------------------------------
     def unit_checks(self, qt, values):
@@ -101,6 +122,19 @@ class Sweep:
         ctx.ev(n * len(values))
         su, ou = um.slope[u], um.offset[u]
         has_conv_u = db.unit_to_unit_info[u].tobase.__has_conversion__
+        # the Quantity route (cached to-base function of the source unit) gives the database's number, also right after
+        # the Unknown quantity - which accepts any unit name and converts nothing - was asked for the same target
+        qu = self.quantity_of(u)
+        if qu is not None:
+            k = len(values) // 2
+            for v in units:
+                if self.unknown is not None:
+                    self.unknown.ConvertScalarValue(values[k], v)
+                ctx.ev()
+                g = qu.ConvertScalarValue(values[k], v)
+                if g != row[v][k] and not (u == v and g == values[k]):
+                    ctx.record("quantity_route_differs_from_database:%s:%s" % (self.cfg, qt), {"config": self.cfg, "qt": qt, "u": u, "v": v, "x": values[k], "kind": "qroute"}, "ObtainQuantity(%r).ConvertScalarValue(%r,%r) = %r, Convert gives %r" % (u, values[k], v, g, row[v][k]))
+                    break
         for iv, v in enumerate(units):
             if v in self.bad_units:
                 continue
@@ -299,7 +333,11 @@ def replay(case, ctx):
         sw = Sweep(ctx, cfg, db)
         qt = case["qt"]
         kind = case["kind"]
-        if kind == "expform":
+        if kind == "qroute":
+            sw.unit_checks(qt, _prep_values(gen.EDGE_VALUES))
+            sw.bad_units.discard(case["u"])
+            sw.row_checks(qt, case["u"], _prep_values([case["x"], 1.0, 2.0]), [1])
+        elif kind == "expform":
             sw.unit_checks(qt, _prep_values(gen.EDGE_VALUES))
             sw.bad_units.discard(case["u"])
             sw.bad_units.discard(case["v"])
